@@ -61,6 +61,14 @@ class Endpoint(object):
       return self.connect(k)
 
 
+def _same_time(a, b):
+  from symex.values import is_concrete
+  try:
+    return is_concrete(a) and is_concrete(b) and a == b
+  except Exception:
+    return False
+
+
 class FakeGSocket(object):
   """gevent.socket.socket stand-in"""
   def __init__(self, family=None, typ=None, *a):
@@ -117,11 +125,20 @@ class FakeGSocket(object):
   def sendall(self, data):
     self._io('send')
     data = bytes(data)
-    self.net.log.append(('tx', vtime.now(), self, data))
+    now = vtime.now(); last = self.net.log[-1] if self.net.log else None
+    if last is not None and last[0] == 'tx' and last[2] is self and (last[1] is now or _same_time(last[1], now)):
+      self.net.log[-1] = ('tx', last[1], self, last[3] + data)      # pieces written at the same instant: one write
+    else:
+      self.net.log.append(('tx', now, self, data))
     if self.peer is not None and not self.peer_closed:
       self.peer.on_bytes(data)
 
   def send(self, data):
+    # socket.send() may accept only part of the buffer: the fake accepts at most net.send_chunk bytes per call, so
+    # that code writing through send() has to loop over partial sends correctly (sendall() takes everything)
+    data = bytes(data)
+    k = getattr(self.net, 'send_chunk', 5)
+    if k and len(data) > k: data = data[:k]
     self.sendall(data); return len(data)
 
   def _wait_rx(self):
